@@ -5,6 +5,7 @@ import (
 	"fmt"
 	"runtime"
 	"sync"
+	"sync/atomic"
 	"testing"
 	"time"
 
@@ -21,12 +22,15 @@ import (
 // Oracle: integer reference (no floats).
 
 type c18BlockNotifier struct {
-	ch chan aggsendertypes.EventNewBlock
+	ch  chan aggsendertypes.EventNewBlock
+	cur atomic.Uint64 // last block handed over (0 before the first one): what a status query sees
 }
 
 func (b *c18BlockNotifier) Subscribe(id string) <-chan aggsendertypes.EventNewBlock { return b.ch }
-func (b *c18BlockNotifier) GetCurrentBlockNumber() uint64                           { return 0 }
+func (b *c18BlockNotifier) GetCurrentBlockNumber() uint64                           { return b.cur.Load() }
 func (b *c18BlockNotifier) String() string                                          { return "c18" }
+
+var c18StatusQueries atomic.Uint64
 
 type c18Recorder struct {
 	mu     sync.Mutex
@@ -58,8 +62,14 @@ func c18Run(start uint64, n uint, p uint, blocks []uint64) ([]uint64, error) {
 	done := make(chan struct{})
 	go func() { en.Start(ctx); close(done) }()
 	for _, b := range blocks {
+		// a status query (the read-only RPC entry point) between any two blocks, also while the chain
+		// is still before the first epoch, must not change what is announced
+		_ = en.GetEpochStatus()
+		c18StatusQueries.Add(1)
 		bn.ch <- aggsendertypes.EventNewBlock{BlockNumber: b}
+		bn.cur.Store(b)
 	}
+	_ = en.GetEpochStatus()
 	cancel()
 	<-done
 	rec.mu.Lock()
@@ -346,5 +356,6 @@ func TestC18(t *testing.T) {
 
 	r.Sample(map[string]any{"N": 4, "start": 10, "P": 50, "blocks": []uint64{11, 12, 13, 14, 17}, "published": c18Ref(10, 4, 50, []uint64{11, 12, 13, 14, 17})})
 	r.Sample(map[string]any{"N": 3, "start": 1, "P": 99, "blocks": []uint64{2, 9, 10}, "published": c18Ref(1, 3, 99, []uint64{2, 9, 10})})
+	r.Set("status_queries_interleaved_with_blocks", int(c18StatusQueries.Load()))
 	finish(t, r, r.N(60, 150))
 }
